@@ -117,8 +117,7 @@ def r1(ctx: Ctx) -> None:
                 ctx.check(ok, 'C14.R1', f, f'hole:{src(hole)[:30]}', f'{src(hole)} is escaped for the string literal it is written into',
                           f'{src(js)[:50]!r}: {why}. The generated match expression is read back as a Python string literal, so `\\bUBER\\b` becomes backspace-UBER-backspace, '
                           f'`(A)\\1` changes meaning and a pattern containing `"` makes the generated file unloadable', js)
-    if n < 2:
-        raise AnalysisError(f'C14.R1: only {n} quoted interpolation sites found')
+    ctx.need(not (n < 2), f'C14.R1: only {n} quoted interpolation sites found')
 
 
 def _constructed_operators(proj) -> Dict[str, Set[str]]:
